@@ -14,7 +14,9 @@
 (* Full node: [ns, cache |-> [h, msgs]]  (future cache: newest future height only).            *)
 (* Dev: named deviations of the code from the reference design that are known findings.        *)
 EXTENDS LHMessages
-CONSTANT Dev
+CONSTANTS Dev,      \* named deviations of the code from the reference design (known findings)
+          Ablate    \* guards switched off: TLC then synthesises the attack that guard exists for (MC_LeanHelix)
+On(g) == g \notin Ablate
 
 SafeHead(q) == IF q = <<>> THEN "?" ELSE Head(q)
 SafeTail(q) == IF q = <<>> THEN <<>> ELSE Tail(q)
@@ -39,7 +41,8 @@ VotesAt(ns, v) == {t \in ns.vs : t.v = v}
 \* ---------------------------------------------------------------- commit / prepared cascades
 CheckCommitted(R, n, v, x) ==
   LET ns == R.ns IN
-  IF ns.committed \/ ~IsPreprepared(ns, v, x) \/ ~IsQuorum(ns.h, ComSenders(ns, v, x)) THEN R
+  IF ns.committed \/ ~IsPreprepared(ns, v, x)
+     \/ ~(IF On("commit_quorum") THEN IsQuorum(ns.h, ComSenders(ns, v, x)) ELSE HasHonest(ns.h, ComSenders(ns, v, x))) THEN R
   ELSE LET R1 == IF n \in ComSenders(ns, v, x) THEN R
                  ELSE Send(R, [NoDigest EXCEPT !.k = "C", !.to = Others(ns.h, n), !.v = v, !.x = x])
        IN [R1 EXCEPT !.ns.committed = TRUE, !.commit = ThePP(ns, v).blk]
@@ -47,7 +50,8 @@ CheckCommitted(R, n, v, x) ==
 CheckPrepared(R, n, v, x) ==
   LET ns == R.ns IN
   IF ns.prepared = v \/ ~IsPreprepared(ns, v, x)
-     \/ ~IsQuorum(ns.h, PrepSenders(ns, v, x) \cup {ThePP(ns, v).s}) THEN R
+     \/ ~(IF On("prepare_quorum") THEN IsQuorum(ns.h, PrepSenders(ns, v, x) \cup {ThePP(ns, v).s})
+           ELSE HasHonest(ns.h, PrepSenders(ns, v, x) \cup {ThePP(ns, v).s})) THEN R
   ELSE LET R1 == [R EXCEPT !.ns.prepared = v, !.ns.cs = @ \cup {[v |-> v, x |-> x, s |-> n]}]
            R2 == Send(R1, [NoDigest EXCEPT !.k = "C", !.to = Others(ns.h, n), !.v = v, !.x = x])
        IN CheckCommitted(R2, n, v, x)
@@ -55,7 +59,8 @@ CheckPrepared(R, n, v, x) ==
 \* processPreprepare: only in the node's current view; store proposal + own PREPARE, broadcast PREPARE
 ProcessPP(R, n, v, x, s, blk) ==
   IF R.ns.view # v THEN R
-  ELSE LET R1 == [R EXCEPT !.ns.pp = IF HasPP(R.ns, v) THEN @ ELSE @ \cup {[v |-> v, x |-> x, s |-> s, blk |-> blk]},
+  ELSE LET R1 == [R EXCEPT !.ns.pp = IF HasPP(R.ns, v) THEN (IF On("pp_first_wins") THEN @ ELSE {p \in @ : p.v # v} \cup {[v |-> v, x |-> x, s |-> s, blk |-> blk]})
+                                       ELSE @ \cup {[v |-> v, x |-> x, s |-> s, blk |-> blk]},
                            !.ns.ps = @ \cup {[v |-> v, x |-> x, s |-> n]}]
            R2 == Send(R1, [NoDigest EXCEPT !.k = "P", !.to = Others(R.ns.h, n), !.v = v, !.x = x])
        IN CheckPrepared(R2, n, v, x)
@@ -63,7 +68,7 @@ ProcessPP(R, n, v, x, s, blk) ==
 \* ---------------------------------------------------------------- handlers
 HandlePP(R, n, m) ==
   LET ns == R.ns IN
-  IF HasPP(ns, m.v) \/ ~m.sig \/ m.s # LeaderM(ns.h, m.vm) \/ m.ht # "PP"
+  IF (On("pp_first_wins") /\ HasPP(ns, m.v)) \/ (On("pp_sig") /\ ~m.sig) \/ (On("pp_leader") /\ m.s # LeaderM(ns.h, m.vm)) \/ m.ht # "PP" \/ ~m.canon
      \/ (m.v > 0 /\ "StandalonePP" \notin Dev) THEN R
   ELSE LET ok == n \in SeqToSet(m.okfor)
            R1 == [R EXCEPT !.vals = Append(@, [blk |-> m.blk, ok |-> ok])]
@@ -71,19 +76,19 @@ HandlePP(R, n, m) ==
 
 HandleP(R, n, m) ==
   LET ns == R.ns IN
-  IF ~m.sig \/ m.ht # "P" \/ m.s \notin Members(ns.h) \/ m.v < ns.view \/ m.s = LeaderM(ns.h, m.vm) THEN R
+  IF (On("p_sig") /\ ~m.sig) \/ m.ht # "P" \/ ~m.canon \/ m.s \notin Members(ns.h) \/ (On("p_view") /\ m.v < ns.view) \/ m.s = LeaderM(ns.h, m.vm) THEN R
   ELSE CheckPrepared([R EXCEPT !.ns.ps = @ \cup {[v |-> m.v, x |-> m.x, s |-> m.s]}], n, m.v, m.x)
 
 HandleC(R, n, m) ==
   LET ns == R.ns IN
-  IF ~m.share \/ ~m.sig \/ m.ht # "C" \/ m.s \notin Members(ns.h) THEN R
+  IF ~m.share \/ (On("c_sig") /\ ~m.sig) \/ m.ht # "C" \/ ~m.canon \/ m.s \notin Members(ns.h) THEN R
   ELSE CheckCommitted([R EXCEPT !.ns.cs = @ \cup {[v |-> m.v, x |-> m.x, s |-> m.s]}], n, m.v, m.x)
 
 \* onElectedByViewChange: the NEW_VIEW embeds exactly the stored votes; block of the highest proof
 \* among votes that carry a block, a fresh proposal only if none does
 CheckElected(R, n, v) ==
   LET ns == R.ns  votes == VotesAt(ns, v) IN
-  IF ns.lastnv >= v \/ ~IsQuorum(ns.h, {t.s : t \in votes}) THEN R
+  IF (On("elect_once") /\ ns.lastnv >= v) \/ ~IsQuorum(ns.h, {t.s : t \in votes}) THEN R
   ELSE IF ns.view > v THEN [R EXCEPT !.ns.lastnv = v]
   ELSE LET withBlk == {t \in votes : t.blk # "-"}
            fresh   == withBlk = {}
@@ -102,8 +107,8 @@ ProofOKCode(p, h, tv) == ~p.has \/ ValidProof(p, h, tv)
 
 HandleVC(R, n, m) ==
   LET ns == R.ns IN
-  IF LeaderM(ns.h, m.vm) # n \/ ns.view > m.v \/ ~m.sig \/ m.ht # "VC" \/ m.s \notin Members(ns.h)
-     \/ ~ProofOKCode(m.proof, ns.h, m.v)
+  IF LeaderM(ns.h, m.vm) # n \/ ns.view > m.v \/ ~m.sig \/ m.ht # "VC" \/ ~m.canon \/ m.s \notin Members(ns.h)
+     \/ (On("vc_proof") /\ ~ProofOKCode(m.proof, ns.h, m.v))
      \/ (m.proof.has /\ (m.blk = "-" \/ ~m.bok)) \/ (~m.proof.has /\ m.blk # "-") THEN R
   ELSE LET vote == [v |-> m.v, s |-> m.s, pv |-> IF m.proof.has THEN m.proof.ppv ELSE -1,
                     px |-> IF m.proof.has THEN m.proof.ppx ELSE "-", blk |-> m.blk]
@@ -113,24 +118,24 @@ HandleVC(R, n, m) ==
 \* validateViewChangeVotes
 VotesOKCode(m, h) ==
   /\ IsQuorum(h, {m.votes[i].s : i \in DOMAIN m.votes})
-  /\ \A i \in DOMAIN m.votes : m.votes[i].h = m.h /\ m.votes[i].v = m.v /\ m.votes[i].sig /\ m.votes[i].ht = "VC"
+  /\ \A i \in DOMAIN m.votes : m.votes[i].h = m.h /\ (On("nv_vote_view") => m.votes[i].v = m.v) /\ (On("nv_vote_sig") => m.votes[i].sig) /\ m.votes[i].ht = "VC"
   /\ Distinct([i \in DOMAIN m.votes |-> m.votes[i].s])
 
 HandleNV(R, n, m) ==
   LET ns == R.ns IN
-  IF ns.view > m.v \/ ~m.sig \/ m.ht # "NV" \/ m.s # LeaderM(ns.h, m.vm) \/ ~VotesOKCode(m, ns.h)
+  IF ns.view > m.v \/ (On("nv_sig") /\ ~m.sig) \/ m.ht # "NV" \/ (On("nv_leader") /\ m.s # LeaderM(ns.h, m.vm)) \/ ~VotesOKCode(m, ns.h)
      \/ m.pp.v # m.v \/ m.pp.h # m.h THEN R
   ELSE LET withP == {i \in DOMAIN m.votes : m.votes[i].proof.has}
            noP   == withP = {}
            li    == IF noP THEN 0 ELSE CHOOSE i \in withP : \A j \in withP : m.votes[j].proof.ppv <= m.votes[i].proof.ppv
-           proofOK == noP \/ ( /\ ValidProof(m.votes[li].proof, ns.h, m.votes[li].v)
-                               /\ m.blk # "-" /\ m.blk = m.votes[li].proof.ppx
-                               /\ m.pp.x = m.votes[li].proof.ppx )
+           proofOK == noP \/ ( /\ (On("nv_proof") => ValidProof(m.votes[li].proof, ns.h, m.votes[li].v))
+                               /\ m.votes[li].canon /\ m.votes[li].s \in Members(ns.h)
+                               /\ (On("nv_lock") => (m.blk # "-" /\ m.blk = m.votes[li].proof.ppx /\ m.pp.x = m.votes[li].proof.ppx)) )
        IN IF ~proofOK THEN R
           ELSE LET valok == n \in SeqToSet(m.okfor)
                    R1 == IF noP THEN [R EXCEPT !.vals = Append(@, [blk |-> m.blk, ok |-> valok])] ELSE R
                IN IF noP /\ ~valok THEN R1
-                  ELSE IF HasPP(ns, m.pp.v) \/ ~m.pp.sig \/ m.pp.s # LeaderM(ns.h, m.vm) \/ m.pp.ht # "PP" THEN R1
+                  ELSE IF HasPP(ns, m.pp.v) \/ ~m.pp.sig \/ m.pp.s # LeaderM(ns.h, m.vm) \/ m.pp.ht # "PP" \/ ~m.pp.canon THEN R1
                   ELSE ProcessPP([R1 EXCEPT !.ns.lastnv = m.v, !.ns.view = m.v], n, m.v, m.pp.x, m.pp.s, m.blk)
 
 TermHandle(R, n, m) ==
